@@ -1705,6 +1705,25 @@ def bounded(payload):
                 f["matches_fingerprint"] = fp
             failures.append(f)
 
+    # conditional expressions nested in each position, under all four truth combinations of the two conditions
+    # (printing them needs parentheses in the then- and the condition-position)
+    for x0 in (14, 8, -4, -10):
+        for shape in ("then", "else", "cond"):
+            inner = ["if", ["cmp", "<", "<state>x", 10], "<state>x", 10]
+            outer_c = ["cmp", ">", "<state>x", 0]
+            if shape == "then":
+                e = ["if", outer_c, inner, 0]
+            elif shape == "else":
+                e = ["if", outer_c, 1, inner]
+            else:
+                e = ["if", ["cmp", ">", inner, 5], 1, 2]
+            consider({"phases": [{"name": "main", "next": "main", "body": [
+                ["assign", "c", e], ["assign", "<state>x", ["+", "<state>x", -6]],
+                ["assign", "<t>", ["+", "<t>", "<dt>"]], ["yield", "c", "y", "<t>", "final"]]}],
+                "initial": "main", "funcs": {}, "state": {"x": x0, "y": 1}, "t0": 0, "dt": 0.5,
+                "run": {"max_steps": 2, "t_end": None}, "cap": 12})
+            parts["nested_conditional_expression_programs"] = parts.get("nested_conditional_expression_programs", 0) + 1
+
     fam = list(small_family())
     # the exhaustive family (strided in the quick tier; offset by seed so that repeated quick runs
     # with different seeds cover it)
